@@ -8,7 +8,8 @@
 // deviates every pair of sites and all sites at once. The other environment axes are the start
 // directory (config dir, sub-directory, nested sub-directory) and GOMAXPROCS (1, 16). Every
 // run is a separate process on a freshly restored project tree and is a 2-step history
-// (generate on the clean tree -> T1, generate again on T1 -> T2).
+// (generate on the clean tree -> T1, generate again on T1 -> T2); the sorted baseline goes one
+// step further (T3). A later generation that fails where the first succeeded is a violation.
 //
 // Oracle (independent of the generator: it only hashes files):
 //
@@ -63,6 +64,7 @@ type projState struct {
 	variants   map[string]string // file|sha(content) -> signature of the single-site finding that produced it
 	hashes     map[string]bool   // distinct tree hashes over all runs and steps... of step-k trees: key "k:hash"
 	orderDep   map[string]bool   // files with an order-dependence finding
+	aborted    bool              // baseline history failed after step 1: nothing to compare further runs with
 	o2Reported map[string]bool   // files with an unlisted idempotence violation already reported
 }
 
@@ -134,7 +136,7 @@ func main() {
 			wg.Add(1)
 			go func(i int, p *project) {
 				defer wg.Done()
-				spec := runSpec{Project: p.Name, StartDir: p.StartDirs[0], MaxProcs: 16, Steps: 2}
+				spec := runSpec{Project: p.Name, StartDir: p.StartDirs[0], MaxProcs: 16, Steps: 3}
 				res := r.execute(i, p, nil, spec, true)
 				sts[i] = &projState{p: p, base: res, sites: res.Sites, variants: map[string]string{}, hashes: map[string]bool{}, orderDep: map[string]bool{}, o2Reported: map[string]bool{}}
 			}(i, p)
@@ -146,18 +148,38 @@ func main() {
 		if b.Err != nil {
 			broken("baseline run of %s: %v", st.p.Name, b.Err)
 		}
-		if len(b.Steps) != 2 || b.Steps[0].Exit != 0 || b.Steps[1].Exit != 0 {
-			last := b.Steps[len(b.Steps)-1]
-			broken("baseline generation of project %s failed at step %d (exit %d):\n%s", st.p.Name, len(b.Steps), last.Exit, last.Output)
+		if len(b.Steps) == 0 || b.Steps[0].Exit != 0 {
+			first := stepResult{Exit: -1}
+			if len(b.Steps) > 0 {
+				first = b.Steps[0]
+			}
+			broken("baseline generation of project %s on the clean tree failed (exit %d):\n%s", st.p.Name, first.Exit, first.Output)
 		}
 		if len(st.sites) == 0 {
 			broken("baseline run of %s executed no instrumented map site (VERIF_MAPSITES_OUT not honoured?)", st.p.Name)
 		}
-		execs += 2
-		compared += 2
-		addState(b.Spec, 2)
-		st.hashes["1:"+treeHash(b.Steps[0].Tree)] = true
-		st.hashes["2:"+treeHash(b.Steps[1].Tree)] = true
+		execs += len(b.Steps)
+		compared += len(b.Steps)
+		addState(b.Spec, len(b.Steps))
+		for k, s := range b.Steps {
+			st.hashes[fmt.Sprintf("%d:%s", k+1, treeHash(s.Tree))] = true
+		}
+		// the baseline history is T1 = generate on the clean tree, T2 = generate on T1, T3 = generate
+		// on T2: a later step that fails where the first succeeded is a violation, not broken machinery
+		if last := b.Steps[len(b.Steps)-1]; last.Exit != 0 {
+			k := len(b.Steps)
+			var lost []string
+			for _, f := range differingFiles(b.Steps[k-2].Tree, last.Tree) {
+				lost = append(lost, f)
+			}
+			c.Report(fmt.Sprintf("regeneration-fails:%s:step%d", st.p.Name, k),
+				fmt.Sprintf("generation %d of the history %s (run on the untouched output of generation %d) exits %d: %s", k, b.Spec, k-1, last.Exit, firstLine(last.Output)),
+				map[string]any{"spec": b.Spec, "kind": "failure", "step": k, "output": last.Output, "files_changed_or_removed_by_the_failing_run": lost})
+			st.aborted = true
+			exhaustive = false
+			incomplete = append(incomplete, fmt.Sprintf("project %s: baseline history failed at step %d, no further histories executed for it", st.p.Name, k))
+			continue
+		}
 		checkIdempotent(st, b, b.Spec)
 	}
 
@@ -168,6 +190,9 @@ func main() {
 	pairProjects := map[string]bool{"multi": true, "input": true, "fed": true}
 	var phaseA, phaseB, phaseC []job
 	for _, st := range sts {
+		if st.aborted {
+			continue
+		}
 		p := st.p
 		ctxs := []ctx{}
 		for _, d := range p.StartDirs {
@@ -400,7 +425,7 @@ func main() {
 	c.Cov["projects"] = pdesc
 	c.Cov["bounds"] = map[string]any{
 		"deviation_bound":   map[bool]string{true: "every executed site reversed on its own; all sites reversed", false: "every executed site reversed / rotated on its own; every pair of executed sites reversed (projects multi, input, fed); all sites reversed"}[quick],
-		"history_depth":     map[bool]string{true: "2 generator runs; single-site deviations share the prefix (sorted generation on the clean tree -> T1) and deviate the second run", false: "2 generator runs, the deviation applies to both; pairs share the sorted prefix and deviate the second run"}[quick],
+		"history_depth":     map[bool]string{true: "sorted baseline: 3 generator runs (T1, T2, T3); other histories 2 generator runs; single-site deviations share the prefix (sorted generation on the clean tree -> T1) and deviate the second run", false: "sorted baseline: 3 generator runs (T1, T2, T3); other histories 2 generator runs, the deviation applies to both; pairs share the sorted prefix and deviate the second run"}[quick],
 		"start_directories": "config dir, sub-directory, nested sub-directory",
 		"gomaxprocs":        []int{1, 16},
 		"context_coverage":  map[bool]string{true: "sorted order at all 6 (start dir, GOMAXPROCS) contexts, all-sites-reversed at 2 of them", false: "sorted order and all-sites-reversed at all 6 (start dir, GOMAXPROCS) contexts"}[quick] + "; site deviations take the 6 contexts round-robin",
@@ -482,10 +507,18 @@ func describeDiff(base, got map[string]string, f string) map[string]any {
 func checkIdempotent(st *projState, res runResult, spec runSpec) {
 	// (a run that starts from the baseline's T1 is covered by O1: its result is compared with the
 	// baseline's T2, and the baseline's own T1/T2 pair is checked here)
-	if spec.FromT1 || len(res.Steps) != 2 || res.Steps[0].Exit != 0 || res.Steps[1].Exit != 0 {
+	if spec.FromT1 {
 		return
 	}
-	t1, t2 := res.Steps[0].Tree, res.Steps[1].Tree
+	for k := 1; k < len(res.Steps); k++ {
+		if res.Steps[k-1].Exit == 0 && res.Steps[k].Exit == 0 {
+			checkIdempotentPair(st, res.Steps[k-1].Tree, res.Steps[k].Tree, k+1, spec)
+		}
+	}
+}
+
+// checkIdempotentPair compares the trees before and after generation number `gen` of a history.
+func checkIdempotentPair(st *projState, t1, t2 map[string]string, gen int, spec runSpec) {
 	for _, f := range differingFiles(t1, t2) {
 		if spec.Plain && st.orderDep[f] {
 			continue // the two steps drew different random orders for a file already reported as order dependent
@@ -501,7 +534,7 @@ func checkIdempotent(st *projState, res runResult, spec runSpec) {
 			}
 			st.o2Reported[f] = true
 		}
-		c.Report(sig, fmt.Sprintf("second generation on the freshly generated tree changed %s (history %s)", f, spec),
+		c.Report(sig, fmt.Sprintf("generation %d on the untouched output of generation %d changed %s (history %s)", gen, gen-1, f, spec),
 			map[string]any{"spec": spec, "kind": "idempotence", "diff_T1_to_T2": describeDiff(t1, t2, f)})
 	}
 }
